@@ -167,7 +167,8 @@ def eval_cases(scratch, cases, nshards=NCPU, timeout=900, module="EvalCases", ex
         with open(os.path.join(d, "cases.ndjson"), "w") as f:
             for c in shards[k]:
                 f.write(json.dumps(c, separators=(",", ":")) + "\n")
-        cfg = ("SPECIFICATION Spec\nINVARIANT Emit\nCONSTANT CaseFile = \"cases.ndjson\"\n%s\nCHECK_DEADLOCK FALSE\n" % extra_const)
+        cfg = ("SPECIFICATION Spec\nINVARIANT %s\nCONSTANT CaseFile = \"cases.ndjson\"\n%s\nCHECK_DEADLOCK FALSE\n"
+               % ("EmitLit" if module == "EvalLit" else "Emit", extra_const))
         out, st = run_tlc(d, module, cfg, workers=1, timeout=timeout, heap="2g")
         if not st["ok"]:
             raise Undecided("TLC failed on the evaluator spec:\n" + tlc_error_excerpt(out))
